@@ -33,6 +33,10 @@ func ParseStages(value string) ([]Stage, error) {
 			return nil, fmt.Errorf("unable to parse target %s in stage %d: %s", stageElement[1], i, stageElements)
 		}
 
+		if target < 0 {
+			return nil, fmt.Errorf("target %d can't be negative in stage %d: %s", target, i, stageElements)
+		}
+
 		stages[i] = Stage{
 			EndTarget: target,
 			Duration:  duration,
